@@ -506,7 +506,8 @@ def bounded(modname, name, n, seed, gen_override=None):
             seen.add(key)
             nontrivial += 1
         if status == "violated":
-            failures.append(dict(args=shown, violated=bad, detail=detail))
+            failures.append(dict(args=shown, violated=bad, detail=detail, seed=seed, draw=tries,
+                                 args_full={k: repr(v)[:300000] for k, v in args.items() if len(repr(v)) >= 200}))
             if len(failures) >= 3:
                 break
     return dict(evaluations=evals, distinct=nontrivial, tries=tries, failures=failures)
